@@ -200,6 +200,14 @@ def rename_sites_local_renamed(rw):
     rw.rename_in_func("js/vars.go", r"\(r \*renamer\) renameScope", "r", "rn")
 
 
+def html_tagmap_renamed(rw):
+    rw.rename("html", "tagMap", "tagTraits")
+
+
+def html_trait_const_renamed(rw):
+    rw.rename("html", "rawTag", "rawTextTag")
+
+
 # ---------------- controls ----------------
 
 def ctl_html_entity_value(rw):
@@ -292,6 +300,10 @@ REWRITES = [
     R("tab-html-traits-type-renamed", HT, "invariant", "rename-type", "html: type traits -> traitBits", html_traits_type_renamed),
     R("tab-html-traits-accessor", HT, "invariant", "add-unrelated-func", "html: unrelated accessor function over tagMap", html_tagmap_renamed_local_use),
     R("tab-html-jsmime-false-row", HT, "invariant", "add-noop-entry", "html.jsMimetypes: a row mapped to false (same as absent)", html_jsmime_false_row),
+    R("tab-html-tagmap-renamed", HT, "invariant", "rename-var", "html: table variable tagMap -> tagTraits", html_tagmap_renamed,
+      known="the name of a table variable is how the Lean model refers to the table"),
+    R("tab-html-trait-const-renamed", HT, "invariant", "rename-const", "html: trait constant rawTag -> rawTextTag", html_trait_const_renamed,
+      known="trait constants become the constructors of the generated inductive type; the models name them"),
     R("tab-xml-value-hoisted", XT, "invariant", "extract-var", "xml.TextRevEntitiesMap: values are named package-level slices", xml_value_hoisted, tests=["./xml/..."]),
     R("tab-xml-keys-int", XT, "invariant", "literal-form", "xml.AttrRevEntitiesMap keys as 9 / 0x0a / '\\x0d'", xml_keys_int),
     R("tab-xml-rows-reordered", XT, "invariant", "reorder-entries", "xml.EntitiesMap rows reordered, raw-string and \\x27 literals", xml_rows_reordered),
